@@ -30,6 +30,7 @@ func runC18Gaps2(c *eng.Ctx) {
 	c18LookupNamespace(c)
 	c18RewrapNamespace(c)
 	c18RevokeByEntryID(c)
+	c18Carrier(c)
 }
 
 // ---------- C18.13 a rewrap consumes, reads and revokes in the wrapping token's namespace
@@ -987,4 +988,250 @@ func c18FieldPath(fa *ssa.FieldAddr, fr *nfFrame) string {
 		return ""
 	}
 	return eng.Expr(rb) + "." + strings.Join(names, ".")
+}
+
+// ---------- C18.15 what wrapInCubbyhole reads out of resp.WrapInfo reaches it
+//
+// The WrapInfo of a backend's response travels to wrapInCubbyhole through a
+// chain of rebuilds: handleRequest and handleLoginRequest replace it by a fresh
+// literal ("no wrap info other than, possibly, the TTL"), and a rewrap hands the
+// old token's stored creation path on in exactly that structure. Writer / reader
+// agreement along the chain, by field identity:
+//   - reader: the fields of the structure wrapInCubbyhole loads through
+//     resp.WrapInfo, and — for those it loads only on the rewrap arm and files
+//     under a constant key of the stored wrap info — the (field, key) pair;
+//   - carriers: every rebuild literal assigned to a response's WrapInfo in
+//     handleRequest / handleLoginRequest sets each of those fields, from (among
+//     others) the same field of the WrapInfo it replaces;
+//   - producer: handleWrappingRewrap's WrapInfo literal sets each rewrap-arm
+//     field from the stored wrap info's entry under the paired key.
+//
+// (Seed C18-g dropped CreationPath from handleRequest's rebuild: a rewrapped
+// token's stored creation_path became "".)
+func c18Carrier(c *eng.Ctx) {
+	wiField := c.P.Field("logical.Response.WrapInfo")
+	if wiField == nil {
+		c.Unresolved("logical.Response.WrapInfo")
+		return
+	}
+	wiType := wiField.Type()
+	if p, ok := wiType.Underlying().(*types.Pointer); ok {
+		wiType = p.Elem()
+	}
+	wiStruct, _ := wiType.Underlying().(*types.Struct)
+	if wiStruct == nil {
+		c.Unresolved("the structure of logical.Response.WrapInfo")
+		return
+	}
+	fieldIdx := map[*types.Var]int{}
+	for i := 0; i < wiStruct.NumFields(); i++ {
+		fieldIdx[wiStruct.Field(i)] = i
+	}
+	wiFieldOf := func(fa *ssa.FieldAddr) *types.Var {
+		fv := eng.FieldVar(fa)
+		if fv == nil {
+			return nil
+		}
+		if _, ok := fieldIdx[fv]; ok {
+			return fv
+		}
+		if _, ok := fieldIdx[fv.Origin()]; ok {
+			return fv.Origin()
+		}
+		return nil
+	}
+	// v reads field F of a response's WrapInfo structure
+	readOf := func(v ssa.Value) (*types.Var, *ssa.FieldAddr) {
+		ld, ok := v.(*ssa.UnOp)
+		if !ok || ld.Op != token.MUL {
+			return nil, nil
+		}
+		fa, ok := ld.X.(*ssa.FieldAddr)
+		if !ok {
+			return nil, nil
+		}
+		return wiFieldOf(fa), fa
+	}
+	isWIAlloc := func(v ssa.Value) (*ssa.Alloc, bool) {
+		a, ok := v.(*ssa.Alloc)
+		if !ok {
+			return nil, false
+		}
+		t := a.Type()
+		if p, ok := t.Underlying().(*types.Pointer); ok {
+			t = p.Elem()
+		}
+		return a, types.Identical(t, wiType)
+	}
+	sameVar := func(a, b *types.Var) bool {
+		return a != nil && b != nil && (a == b || a.Origin() == b || a == b.Origin())
+	}
+
+	// ---- reader
+	cons := c.Fn("vault.(*Core).wrapInCubbyhole")
+	if cons == nil {
+		return
+	}
+	c.Clause("R6", "C18.15")
+	reads := map[*types.Var][]*ssa.UnOp{}
+	var order []*types.Var
+	for _, in := range eng.Instrs(cons, func(in ssa.Instruction) bool { _, ok := in.(*ssa.UnOp); return ok }) {
+		ld := in.(*ssa.UnOp)
+		fv, fa := readOf(ld)
+		if fv == nil {
+			continue
+		}
+		// through resp.WrapInfo: the structure is read out of a response's WrapInfo field
+		through := false
+		for _, o := range eng.Origins(fa.X) {
+			if b, ok := o.Val.(*ssa.UnOp); ok {
+				if bfa, ok := b.X.(*ssa.FieldAddr); ok && sameVar(eng.FieldVar(bfa), wiField) {
+					through = true
+					continue
+				}
+			}
+			through = false
+			break
+		}
+		if !through {
+			continue
+		}
+		if reads[fv] == nil {
+			order = append(order, fv)
+		}
+		reads[fv] = append(reads[fv], ld)
+	}
+	sort.Slice(order, func(i, j int) bool { return fieldIdx[order[i]] < fieldIdx[order[j]] })
+	if !c.Floor(cons, "fields wrapInCubbyhole reads out of resp.WrapInfo", len(order), 1) {
+		return
+	}
+	// the rewrap arm: fields loaded only behind "this is a rewrap", and the key they are filed under
+	rewrap := c18G(cons, `^req\.Path == "sys/wrapping/rewrap"$`, true)
+	type pair struct {
+		f   *types.Var
+		key string
+	}
+	var pairs []pair
+	for _, fv := range order {
+		for _, ld := range reads[fv] {
+			if len(rewrap.Edges) == 0 || eng.Reach(eng.Query{Fn: cons, Blocked: rewrap.Edges, Target: func(x ssa.Instruction) bool { return x == ssa.Instruction(ld) }}) != nil {
+				continue
+			}
+			for _, in := range eng.Instrs(cons, func(in ssa.Instruction) bool { _, ok := in.(*ssa.MapUpdate); return ok }) {
+				mu := in.(*ssa.MapUpdate)
+				k, isConst := mu.Key.(*ssa.Const)
+				if !isConst {
+					if mi, ok := mu.Key.(*ssa.MakeInterface); ok {
+						k, isConst = mi.X.(*ssa.Const)
+					}
+				}
+				if !isConst {
+					continue
+				}
+				for _, o := range eng.Origins(mu.Value) {
+					if o.Val == ssa.Value(ld) {
+						pairs = append(pairs, pair{fv, eng.Expr(k)})
+					}
+				}
+			}
+		}
+	}
+	c.Floor(cons, "fields read on the rewrap arm and filed in the stored wrap info (CreationPath -> \"creation_path\")", len(pairs), 1)
+	var names []string
+	for _, fv := range order {
+		names = append(names, fv.Name())
+	}
+	c.OK(cons, "fields read out of the inbound WrapInfo", cons.Pos(), strings.Join(names, ", "))
+
+	// ---- carriers
+	for _, fn := range []string{"vault.(*Core).handleRequest", "vault.(*Core).handleLoginRequest"} {
+		f := c.Fn(fn)
+		if f == nil {
+			continue
+		}
+		c.Clause("R6", "C18.15")
+		var lits []*ssa.Alloc
+		var at []ssa.Instruction
+		for _, in := range eng.Instrs(f, func(in ssa.Instruction) bool { _, ok := in.(*ssa.Store); return ok }) {
+			st := in.(*ssa.Store)
+			fa, ok := st.Addr.(*ssa.FieldAddr)
+			if !ok || !sameVar(eng.FieldVar(fa), wiField) {
+				continue
+			}
+			if a, ok := isWIAlloc(st.Val); ok {
+				lits = append(lits, a)
+				at = append(at, st)
+			}
+		}
+		if !c.Floor(f, "rebuild of the response's WrapInfo (fresh literal)", len(lits), 1) {
+			continue
+		}
+		for i, lit := range lits {
+			for _, fv := range order {
+				site := "the rebuilt WrapInfo carries " + fv.Name()
+				vals := eng.StructLitField(lit, fv.Name())
+				if len(vals) == 0 {
+					c.Violation(f, site, at[i].Pos(), "wrapInCubbyhole reads resp.WrapInfo."+fv.Name()+", but the WrapInfo this function rebuilds for the response does not set it: whatever the backend (a rewrap: the old token's creation path) put there is lost before it is wrapped", nil)
+					continue
+				}
+				ok := true
+				for _, v := range vals {
+					copied := false
+					for _, o := range eng.Origins(v) {
+						if g, _ := readOf(o.Val); sameVar(g, fv) {
+							copied = true
+						}
+					}
+					if !copied {
+						ok = false
+						c.Violation(f, site, at[i].Pos(), "the rebuilt WrapInfo sets "+fv.Name()+" to "+eng.ExprDeep(v)+", never to the "+fv.Name()+" of the WrapInfo it replaces", nil)
+					}
+				}
+				if ok {
+					c.OK(f, site, at[i].Pos(), fv.Name()+" is copied from the WrapInfo that is replaced")
+				}
+			}
+		}
+	}
+
+	// ---- producer
+	if f := c.Fn("vault.(*SystemBackend).handleWrappingRewrap"); f != nil && len(pairs) > 0 {
+		c.Clause("R5", "C18.15")
+		routes := c18Plain(c18Calls(f, `routing\.\(\*Router\)\.Route$`))
+		var lits []*ssa.Alloc
+		for _, in := range eng.Instrs(f, func(in ssa.Instruction) bool { _, ok := in.(*ssa.Alloc); return ok }) {
+			if a, ok := isWIAlloc(in.(*ssa.Alloc)); ok {
+				lits = append(lits, a)
+			}
+		}
+		if c.Floor(f, "WrapInfo literal of the rewrap response", len(lits), 1) {
+			for _, lit := range lits {
+				for _, p := range pairs {
+					site := "the rewrap response carries the stored " + p.key + " in WrapInfo." + p.f.Name()
+					vals := eng.StructLitField(lit, p.f.Name())
+					if len(vals) == 0 {
+						c.Violation(f, site, lit.Pos(), "wrapInCubbyhole files resp.WrapInfo."+p.f.Name()+" as "+p.key+" of a rewrapped token, but the rewrap response does not set it", nil)
+						continue
+					}
+					for _, v := range vals {
+						src, keyed := c18MapRead(v, p.key)
+						from := false
+						if keyed {
+							if base, isData := c18FieldLoad(src, "Data"); isData {
+								from = c18ResultOfSites(base, routes, 0)
+							}
+						}
+						switch {
+						case from:
+							c.OK(f, site, lit.Pos(), "read from the old token's stored wrap info: "+eng.ExprDeep(v))
+						case keyed:
+							c.Undecided(f, site, lit.Pos(), p.key+" is read out of a map that could not be traced to the response of a cubbyhole read ("+eng.ExprDeep(v)+"): the rule cannot be evaluated")
+						default:
+							c.Violation(f, site, lit.Pos(), "WrapInfo."+p.f.Name()+" of the rewrap response is "+eng.ExprDeep(v)+", not the "+p.key+" stored with the old token", nil)
+						}
+					}
+				}
+			}
+		}
+	}
 }
